@@ -139,6 +139,34 @@ def _cmp(p, cfg, S, label, how, chunks, ref):
                {"cfg": list(cfg), "stream": S.hex(), "chunks_a": [S.hex()], "chunks_b": [c.hex() for c in chunks]}, size=len(S))
 
 
+def _work_variants(task) -> core.Part:
+    """Feeding variants that must not matter (caller re-uses its buffer, empty chunks, a second reader instance fed in
+    alternation) and stability of returned frames (observed at return time and again at the end)."""
+    label, S, cfgs = task
+    p = core.Part()
+    one = lambda f: (f.as_bytes, f.is_valid, f.payload)  # noqa: E731
+    n = len(S)
+    for cfg in cfgs:
+        ref = None
+        for how, chunks in (("bytewise", X.bytewise(S)), ("fixed3", X.fixed(S, 3)), ("halves", X.split(S, (n // 2,))), ("oneshot", [S])):
+            for vname, early, final in X.feed_variants(lambda: X.new_reader(cfg), chunks, one):
+                p.add("executions")
+                p.add("events", len(chunks))
+                if ref is None:
+                    ref = final
+                    if ref:
+                        p.add("nontrivial")
+                if early != final:
+                    p.viol("unstable_frame", f"unstable:{X.cfg_name(cfg)}:{label}:{how}:{vname}", f"[{X.cfg_name(cfg)}] {label} ({how}, {vname}): a returned frame changed after later read() calls: "
+                           f"{_fmt(early)[:2]!r:.150} became {_fmt(final)[:2]!r:.150}", {"cfg": list(cfg), "stream": S.hex(), "chunks_a": [S.hex()], "chunks_b": [c.hex() for c in chunks]}, size=n)
+                elif final != ref:
+                    p.viol("chunking", f"chunking:{X.cfg_name(cfg)}:{label}:{how}:{vname}", f"[{X.cfg_name(cfg)}] {label}: feeding variant '{vname}' ({how}) returns {_fmt(final)[:2]!r:.150}, plain one-shot feeding returns {_fmt(ref)[:2]!r:.150}",
+                           {"cfg": list(cfg), "stream": S.hex(), "chunks_a": [S.hex()], "chunks_b": [c.hex() for c in chunks], "variant": vname}, size=n)
+        if p.full("chunking"):
+            break
+    return p
+
+
 def _work_mid(task) -> core.Part:
     """Mid-size frames (100-300 octets): every pair of cuts with the first cut in this task's range."""
     cfg, label, S, lo, hi = task
@@ -238,7 +266,7 @@ def main(run: core.Run) -> int:
     N, NS, NT = (8, 7, 6) if q else (10, 8, 7)
     run.bounds = {"graph_octets": f"depth {N} over Sigma_h (no stuffing), depth {NS} over Sigma_h+ (stuffing)",
                   "graph_tokens": f"depth {NT} over the 8-token alphabet", "deviations": "<=1 edit" if q else "<=2 edits on single frames, <=1 otherwise",
-                  "long_history": "1..260 (thorough 1100) clean frames, then idle noise / shared flags / aborted frame / flag fill: a cut at each of the last ~150 positions",
+                  "feeding_variants": "caller wipes its bytearray after each read(), empty chunks in between, a twin reader instance fed in alternation; frames observed at return time and again at the end", "long_history": "1..260 (thorough 1100) clean frames, then idle noise / shared flags / aborted frame / flag fill: a cut at each of the last ~150 positions",
                   "mid_size": "120-octet" + ("" if q else " and 300-octet") + " frames with flag/escape octets in the information field: every pair of cuts, fixed sizes up to 128",
                   "check_sequence_sweep": "685 frames covering every octet value in every FCS/HCS position: every single cut", "escape_aligned": "2047-octet frames: cut pairs aligned with 7D/7E, middle chunk 1..1024"}
     parts = []
@@ -258,6 +286,9 @@ def main(run: core.Run) -> int:
     run.log(f"E3: {len(e3)} base streams")
     run.merge(par.pmap(_work_e3, e3, seed=run.seed))
     run.merge(par.pmap(_work_long, list(X.CFGS), seed=run.seed))
+    vt = [(f"{'stuffed' if st else 'plain'}:{label}", S_, X.CFGS) for st in (False, True) for label, S_, _ in C01.base_streams(st, "quick")]
+    vt += [(label, S_, X.CFGS) for st in (False, True) for label, S_ in X.midsize_streams(st)]
+    run.merge(par.pmap(_work_variants, vt, seed=run.seed))
     mid = []
     for cfg in X.CFGS:
         for label, S in X.midsize_streams(cfg[0]):
